@@ -96,6 +96,15 @@ type access struct {
 	baseOK  bool
 }
 
+// acq: one acquisition of a mutex, with the lock state just before it and the names of the local
+// variables that hold a fresh (unpublished) object at that point
+type acq struct {
+	key   lockKey
+	st    state
+	line  int
+	fresh map[string]bool
+}
+
 type edge struct {
 	from, to *unit
 	st       state
@@ -104,6 +113,8 @@ type edge struct {
 	sp       *spawn
 	handoff  []lockKey
 	inLoop   bool
+	// parameters of `to` that this call binds to a fresh (unpublished) object
+	freshParams map[string]bool
 }
 
 type spawn struct {
@@ -127,6 +138,7 @@ type unit struct {
 	params   []string
 	isLit    bool
 	accesses []*access
+	acqs     []*acq
 	in       []*edge
 	spawns   []*spawn
 	valueRef bool
@@ -493,24 +505,26 @@ func (a *analyzer) scanCleared(files []*ast.File) {
 // ---- per-unit walk -------------------------------------------------------------------------
 
 type walker struct {
-	a          *analyzer
-	u          *unit
-	st         state
-	fresh      map[types.Object]bool
-	origin     map[types.Object]int
-	holderVars map[types.Object]bool
-	grChans    map[types.Object]bool
-	closeDone  map[string]bool
-	commDone   []string
-	lastMapAcc int
-	loopEntry  []state
-	nilOperand map[*ast.SelectorExpr]bool
-	curNil     bool
-	snap       map[types.Object]*access // local holding a copy of a cleared field -> the read that made it
-	nilIdent   map[*ast.Ident]bool      // identifiers that are operands of ==/!= nil
-	deferUnl   map[lockKey]bool         // mutexes a `defer ...Unlock()` releases when the function returns
-	curStmt    ast.Stmt                 // the statement of the enclosing block's list being walked
-	alias      map[types.Object]string  // local `r := runner` (pointer to a tracked struct): r is named runner
+	a           *analyzer
+	u           *unit
+	st          state
+	fresh       map[types.Object]bool
+	origin      map[types.Object]int
+	holderVars  map[types.Object]bool
+	grChans     map[types.Object]bool
+	closeDone   map[string]bool
+	commDone    []string
+	lastMapAcc  int
+	loopEntry   []state
+	nilOperand  map[*ast.SelectorExpr]bool
+	curNil      bool
+	snap        map[types.Object]*access // local holding a copy of a cleared field -> the read that made it
+	nilIdent    map[*ast.Ident]bool      // identifiers that are operands of ==/!= nil
+	deferUnl    map[lockKey]bool         // mutexes a `defer ...Unlock()` releases when the function returns
+	paramFresh  map[types.Object]bool    // pointer parameters not yet stored anywhere by this function (fresh if every caller passes a fresh object)
+	freshAtCall map[string]bool          // names of the fresh locals at the start of the call being walked
+	curStmt     ast.Stmt                 // the statement of the enclosing block's list being walked
+	alias       map[types.Object]string  // local `r := runner` (pointer to a tracked struct): r is named runner
 }
 
 func (a *analyzer) prescanSpawns(u *unit) {
@@ -590,7 +604,17 @@ func (a *analyzer) walkUnit(u *unit) {
 	w := &walker{a: a, u: u, st: newState(), fresh: map[types.Object]bool{}, origin: map[types.Object]int{},
 		holderVars: map[types.Object]bool{}, grChans: map[types.Object]bool{}, closeDone: map[string]bool{}, lastMapAcc: -1,
 		nilOperand: map[*ast.SelectorExpr]bool{}, deferUnl: map[lockKey]bool{}, alias: map[types.Object]string{},
-		snap: map[types.Object]*access{}, nilIdent: map[*ast.Ident]bool{}}
+		snap: map[types.Object]*access{}, nilIdent: map[*ast.Ident]bool{}, paramFresh: map[types.Object]bool{}}
+	if u.fn != nil {
+		if sig, ok := u.fn.Type().(*types.Signature); ok {
+			for i := 0; i < sig.Params().Len(); i++ {
+				v := sig.Params().At(i)
+				if _, ptr := v.Type().(*types.Pointer); ptr && trackedTypes[namedOf(v.Type())] {
+					w.paramFresh[v] = true
+				}
+			}
+		}
+	}
 	for _, sp := range u.spawns {
 		w.st.added[lockKey(fmt.Sprintf("pre:%d@", sp.id))] = true
 	}
@@ -1456,6 +1480,7 @@ func (w *walker) expr(e ast.Expr) {
 		if w.fresh[o] {
 			delete(w.fresh, o) // escapes
 		}
+		delete(w.paramFresh, o)
 		w.snapUse(e)
 		if w.a.trackedGlobal(o) {
 			k := "read"
@@ -1605,6 +1630,19 @@ const sharedPrefix = "r!"
 func sharedKey(k lockKey) lockKey { return lockKey(sharedPrefix + string(k)) }
 
 func (w *walker) acquire(k lockKey) {
+	// lock order: what is held when this mutex is taken (resolved in solve(), where the locks held by
+	// the callers are known)
+	aq := &acq{key: k, st: w.st.clone(), fresh: map[string]bool{}}
+	if w.curStmt != nil {
+		aq.line = w.a.fset.Position(w.curStmt.Pos()).Line
+	}
+	for o := range w.fresh {
+		aq.fresh[o.Name()] = true
+	}
+	for o := range w.paramFresh {
+		aq.fresh["param:"+o.Name()] = true
+	}
+	w.u.acqs = append(w.u.acqs, aq)
 	w.st.added[k] = true
 	delete(w.st.removed, k)
 }
@@ -1687,11 +1725,24 @@ func (w *walker) bindsFor(callee *unit, recv ast.Expr, args []ast.Expr) map[stri
 }
 
 func (w *walker) addEdge(to *unit, mode string, binds map[string]string, sp *spawn, handoff []lockKey) {
-	to.in = append(to.in, &edge{from: w.u, to: to, st: w.st.clone(), binds: binds, mode: mode, sp: sp, handoff: handoff, inLoop: len(w.loopEntry) > 0})
+	e := &edge{from: w.u, to: to, st: w.st.clone(), binds: binds, mode: mode, sp: sp, handoff: handoff, inLoop: len(w.loopEntry) > 0,
+		freshParams: map[string]bool{}}
+	for from, param := range binds {
+		if w.freshAtCall[from] {
+			e.freshParams[param] = true
+		}
+	}
+	to.in = append(to.in, e)
 }
 
 // call handles a call expression; mode is "call", "deferred" or "spawn" (go statement)
 func (w *walker) call(e *ast.CallExpr, mode string) {
+	savedFresh := w.freshAtCall
+	w.freshAtCall = map[string]bool{}
+	for o := range w.fresh {
+		w.freshAtCall[o.Name()] = true
+	}
+	defer func() { w.freshAtCall = savedFresh }()
 	var sp *spawn
 	if s, ok := w.a.spawnByNd[e]; ok {
 		sp = s
